@@ -218,13 +218,40 @@ def _limit(mem_gb):
     return f
 
 
-def run_cbmc(o, unit, bounds, extra_defs=(), trace=False, timeout=None):
-    cmd = ['cbmc', os.path.join(VERIF, o.harness), '-DOUTC="%s"' % unit.outc, '-I', ENGINE,
-           '-I', os.path.dirname(os.path.join(VERIF, o.harness)), '-I', unit.dir,
-           '--function', 'harness', '--drop-unused-functions', '--unwinding-assertions', '--no-standard-checks',
-           '--no-malloc-may-fail', '--verbosity', '8', '--unwind', str(o.unwind_start)]
+_gb_lock = threading.Lock()
+_gb_cache = {}
+
+
+def goto_binary(o, unit, extra_defs=()):
+    """harness + generated C compiled ONCE per obligation with goto-cc; the deepening rounds then run cbmc on the binary"""
+    defs = []
     for k, v in list(o.defines.items()) + list(extra_defs):
-        cmd.append('-D%s=%s' % (k, v) if v is not None else '-D%s' % k)
+        defs.append('-D%s=%s' % (k, v) if v is not None else '-D%s' % k)
+    key = (unit.name, o.harness, tuple(defs))
+    with _gb_lock:
+        if key in _gb_cache:
+            return _gb_cache[key]
+    gb = os.path.join(unit.dir, 'gb_%s.gb' % sha1(json.dumps([o.harness, defs]))[:12])
+    cmd = ['goto-cc', '-D__CPROVER__', os.path.join(VERIF, o.harness), '-DOUTC="%s"' % unit.outc, '-I', ENGINE,
+           '-I', os.path.dirname(os.path.join(VERIF, o.harness)), '-I', unit.dir] + defs + ['-o', gb]
+    r = sh(cmd, cwd=unit.dir)
+    res = gb if r.returncode == 0 and os.path.exists(gb) else None
+    with _gb_lock:
+        _gb_cache[key] = res
+    return res
+
+
+def run_cbmc(o, unit, bounds, extra_defs=(), trace=False, timeout=None):
+    gb = goto_binary(o, unit, extra_defs) if os.environ.get('VERIF_NO_GOTOCC') != '1' else None
+    if gb:
+        cmd = ['cbmc', gb]
+    else:
+        cmd = ['cbmc', os.path.join(VERIF, o.harness), '-DOUTC="%s"' % unit.outc, '-I', ENGINE,
+               '-I', os.path.dirname(os.path.join(VERIF, o.harness)), '-I', unit.dir]
+        for k, v in list(o.defines.items()) + list(extra_defs):
+            cmd.append('-D%s=%s' % (k, v) if v is not None else '-D%s' % k)
+    cmd += ['--function', 'harness', '--drop-unused-functions', '--unwinding-assertions', '--no-standard-checks',
+            '--no-malloc-may-fail', '--verbosity', '8', '--unwind', str(o.unwind_start)]
     checks = o.checks if o.checks is not None else (C13_CHECKS if o.kind == 'c13' else [])
     cmd += checks + [f for f in BACKENDS[o.backend] if not (trace and f == '--slice-formula')] + o.flags
     if bounds:
@@ -539,7 +566,7 @@ def run_property(pid, mod, tier, seed, update_bounds=False, only=None):
                         res['verdict'] = 'ENCODING-MISMATCH'
                         res['why'] = tvr['why']
                         return res
-            kfs = [k for k in known if k['obligation'] == o.id]
+            kfs = [k for k in known if k['obligation'] == o.id or re.fullmatch(k['obligation'], o.id)]
             extra = [(k['define'], None) for k in kfs]
             g = gate.acquire(o.mem_gb)
             try:
@@ -624,9 +651,13 @@ def run_property(pid, mod, tier, seed, update_bounds=False, only=None):
     os.makedirs(os.path.join(VERIF, 'replays'), exist_ok=True)
     nviol = 0
     seen_err = set()
+    seen_kf = set()
     for r in results:
         o = [x for x in obls if x.id == r['id']][0]
         for k in r.get('known') or []:
+            if k['text'] in seen_kf:
+                continue
+            seen_kf.add(k['text'])
             if k['still_fails']:
                 log('KNOWN-FINDING: property=%s %s' % (pid, k['text']))
             else:
